@@ -313,7 +313,7 @@ func orchMain() int {
 		// self-assessment: probes that must be reached
 		if tier == "thorough" {
 			for _, mp := range p.MustProbes {
-				if tot.Probes[mp] == 0 {
+				if tot.Probes[mp] == 0 && tot.Faults[mp] == 0 {
 					fmt.Printf("HARNESS-ERROR: reach probe %q stayed at zero in a thorough run\n", mp)
 					return 2
 				}
